@@ -47,7 +47,7 @@ META = {
                     'normal form: history ends at first ERROR; static names use only constructor '
                     'variables and $num; static-only templates end in a variable-free name',
                     'no fault space exists for this property (sequential refinement only)'],
-    'probe_names': ['collision_skipped', 'error_expected', 'alt_fallback', 'words_limited',
+    'probe_names': ['long_history', 'collision_skipped', 'error_expected', 'alt_fallback', 'words_limited',
                     'charsub_applied', 'ext_added', 'ext_present', 'static_dup_skipped',
                     'ambiguous', 'empty_value_with_n', 'num_skipped_taken', 'space_in_badchars_with_n'],
     'shrink_budget': 600,
@@ -59,7 +59,7 @@ VALUES = ['alpha', 'beta gamma', 'one two three four', 'a:b', 'x/y z', '', ' ', 
           'Ünï cödé', 'dup', 'dup', 'a  b', 'tab\tsep', 'Intro', 'Intro',
           'The quick brown fox', '??', ':::', 'index', 'sect1', 'q.html', 'a b', 'a-b']
 VARS = ['id', 'title', 'name', 'ref']
-LITS = ['sect', 'file-', '_', 'index', 'toc', 'n', 'a.b', 'x', '-', 'p_']
+LITS = ['sect', 'file-', '_', 'index', 'toc', 'n', 'a.b', 'x', '-', 'p_', 'v.', '.h']
 BADS = [None, [': #$%^&*!~`"\'=?/{}[]()|<>;\\,.', '-'], [' :/', '_'], [':/', '-'], ['', '-'],
         [' ', ''], ['\t :', '-'], [': #$%^&*!~`"\'=?/{}[]()|<>;\\,.', '_']]
 EXTS = ['.html', '.html', '.html', '', '.xml']
@@ -85,7 +85,7 @@ def _gen_name(r, allow_vars, varpool, force_num=False, numonly=False):
             used.add(v)
             fmt = None
             if r.random() < 0.5:
-                fmt = r.choice([1, 2, 2, 3, 4]) if v != 'num' else r.choice([0, 2, 3, 4])
+                fmt = r.choice([1, 2, 2, 3, 4]) if v != 'num' else r.choice([0, 1, 2, 3, 4])
                 if v != 'num' and r.random() < 0.05:
                     fmt = 0
             parts.append(['var', v, fmt, r.random() < 0.4])
@@ -109,7 +109,7 @@ def render_name(parts):
             need = braces or (fmt is None and nxt[:1] and (nxt[:1].isalnum() or nxt[:1] == '_'))
             out += ('${%s}' % v) if need else ('$%s' % v)
             if fmt is not None:
-                out += '(%d)' % fmt
+                out += ('( %d )' if p[3] and fmt % 2 else '(%d)') % fmt
     return out
 
 
@@ -118,8 +118,9 @@ def render_spec(sw):
     w = sw['wildcard']
     if w:
         sep = sw.get('altsep', ', ')
-        names.append(render_name(w['prefix']) + '[' + sep.join(render_name(a) for a in w['alts'])
-                     + ']' + render_name(w['suffix']))
+        lb, rb = ('[ ', ' ]') if sw.get('altsep') == ' , ' else ('[', ']')
+        names.append(render_name(w['prefix']) + lb + sep.join(render_name(a) for a in w['alts'])
+                     + rb + render_name(w['suffix']))
     return sw.get('namesep', ' ').join(names)
 
 
@@ -168,6 +169,8 @@ def generate(seed, tier):
     }
     ro = R('ops')
     nreq = ro.choice([1, 2, 3, 3, 4, 5, 6, 8, 12])
+    if ro.random() < 0.03:
+        nreq = ro.randint(100, 130)       # a book-sized document: well beyond the give-up bound of 100 passes
     first_keys = sorted(ro.sample(VARS, ro.choice([0, 0, 1, 2])))
     ops = []
     for k in range(nreq):
@@ -178,6 +181,13 @@ def generate(seed, tier):
         if ro.random() < 0.1:
             keys = set(first_keys)
         ops.append({'op': 'REQ', 'bind': dict((v, rv.choice(pool)) for v in sorted(keys))})
+    if nreq >= 100 and wildcard:
+        # reserve a few names the numbered fail-safe will reach late in the history (a collision after >100 requests)
+        full = wildcard['prefix'] + wildcard['alts'][-1] + wildcard['suffix']
+        for n in ro.sample(range(60, 140), 8):
+            text, uses = instantiate(full, dict(initial), n, swarm['charsub'])
+            if text is not None and uses:
+                swarm['reserved'].append(add_ext(text, swarm['extension']))
     return {'property': PID, 'seed': seed, 'swarm': swarm, 'ops': ops}
 
 
@@ -421,6 +431,8 @@ def execute(record):
             res['states'].append(core.h64(st[0], st[1], sorted(st[2])))
     if viol:
         res['violations'].append(viol)
+    if answered > 100:
+        info['long_history'] = 1
     res['probes'] = dict((k, 1) for k in info)
     res['steps'] = steps
     res['nontrivial'] = answered >= 2 and any(k in info for k in (
